@@ -470,10 +470,10 @@ def rand_tree(rng, depth, shape=None, base=None):
         if any(n == 0 for n in pshape) or not pshape:
             return parent
         if parent['kind'] != 'subset' and rng.random() < 0.4:
-            # raw-basis definition (nitf.py builds its padded blocks this way); over a non-identity format function only
-            # rarely: three listed defects of transform_raw_slice live there
+            # raw-basis definition (nitf.py builds its padded blocks this way); over a non-identity format function
+            # (transform_raw_slice of the complex / LUT classes, repaired by F2F3 / F4) less often
             f = parent.get('fmt')
-            if f is None or rng.random() < 0.15:
+            if f is None or rng.random() < 0.3:
                 rshape = raw_shape_of(parent)
                 if rshape and all(n > 0 for n in rshape):
                     d = [rand_norm_slice(rng, n, steps=(1, 1, 1, -1, 2)) for n in rshape]
